@@ -6,8 +6,13 @@
 
   C07.B  (= C12.B, shared) the hash part's removal keeps every other key reachable: back-shift loop decided by exhaustive
          case analysis (see cao/backshift.py).
+  C07.E  (= C12.E, shared) a failed insertion into the hash part leaves it unchanged, so `insert` skipping the key list on
+         failure keeps both halves in step.
   C07.H  (= C12.H, shared) one home-slot function in the hash part.
 
+  C07.O  insertion order survives every mutator: the key list is only changed by order-preserving operations (push, pop,
+         remove(i), retain, truncate, clear, insert); swap_remove / swap / sort / reverse / rotate permute the rows that
+         for-each, nth-row, iteration and pop hand out.
   C07.A  append never overwrites: the key `append` hands to `insert` was just tested absent - the insert is dominated by the
          `false` edge of a `map.contains(key)` test on every path.
 
@@ -30,6 +35,42 @@ EXPLANATION = (
 ASSUMPTIONS = ["CaoHashMap is a faithful map (C12)", "Vec operations behave as documented"]
 
 import rules.c12 as _c12  # noqa: E402
+
+
+PERMUTING = ("swap_remove", "swap", "sort", "sort_by", "sort_by_key", "sort_unstable", "sort_unstable_by", "sort_unstable_by_key",
+             "reverse", "rotate_left", "rotate_right", "select_nth_unstable", "dedup_by_key")
+
+
+def rule_o(F):
+    res = []
+    n = 0
+    for f in F.fns:
+        if not f.hir or f.is_closure or not (f.short.startswith(TABLE + "::")):
+            continue
+        hits = []
+        ops = 0
+        for x in hir_walk(f.hir["body"]):
+            if x.get("k") == "mcall":
+                fc = hu.field_chain(x["recv"])
+                if fc is not None and fc[1][-1:] == ["keys"]:
+                    adj = (x["recv"].get("ty_adj") or "")
+                    if adj.startswith("&mut") or x["name"] in PERMUTING:
+                        ops += 1
+                        if x["name"] in PERMUTING:
+                            hits.append(x)
+        if not ops:
+            continue
+        n += 1
+        key = "C07/O/%s/key-list-order-preserved" % f.name
+        if hits:
+            res.append(bad("C07.O", key, f.loc(hits[0]["ln"]),
+                           "CaoLangTable::%s changes the key list with `%s`, which permutes the remaining keys: rows are no longer visited in "
+                           "insertion order (for-each, nth-row, iteration) and pop no longer returns the most recently inserted row" % (f.name, hits[0]["name"])))
+        else:
+            res.append(ok("C07.O", key, f.loc(), "only order-preserving operations on the key list (%d)" % ops))
+    if n < 2:
+        raise AnchorMissing("mutators of CaoLangTable.keys (found %d)" % n)
+    return res
 
 
 def rule_a(F):
@@ -224,8 +265,10 @@ def rule_m(F):
 
 RULES = [
     Rule("C07.S", rule_s, 4, "map and keys change together in every mutator"),
+    Rule("C07.O", rule_o, 2, "insertion order survives every mutator of the key list"),
     Rule("C07.A", rule_a, 1, "append never overwrites an existing row"),
     Rule("C07.M", rule_m, 2, "no outside writer of one half"),
     Rule("C07.B", shared(_c12.rule_b, "C12.B", "C07.B"), 4, "removal from the hash part keeps the other keys reachable (shared with C12)"),
+    Rule("C07.E", shared(_c12.rule_e, "C12.E", "C07.E"), 3, "a failed insert into the hash part has not inserted (shared with C12.E)"),
     Rule("C07.H", shared(_c12.rule_h, "C12.H", "C07.H"), 1, "one home-slot function in the hash part (shared with C12)"),
 ]
